@@ -17,6 +17,9 @@ CLAIMED = {
  "C09": dict(
    text="ring offset lemmas (roffset/woffset) for arbitrary 64-bit positions; one-step refinement of memBuffer/fileBuffer readSome/writeSome from an arbitrary valid symbolic state against a ghost stream; sequential close rules on the real pipe; protocol runs with a writer goroutine and the reader in the main goroutine where every interleaving at mutex/cond/channel granularity (preemption bound 2, thorough 3) is a branch of the search, with deadlock detection and an explicit hand-shake so that wake-up must come from progress, not from close",
    note=NOTE_COMMON + "concrete ring sizes in the lemmas (a symbolic size is not decided within 60 s by any back end); step lemmas on an 8-byte ring; stream-length induction on paper; sync.Mutex/Cond/WaitGroup are engine primitives; schedule-dependent counterexamples are replayed by engine-concrete re-execution"),
+ "C18": dict(
+   text="offset lemmas (roffset/woffset) for arbitrary 64-bit positions; one-step refinement of the memory and file backed stores (readSomeAt from an arbitrary offset and write position: exact bytes or ErrInvalidOffset exactly when overwritten/future; writeSome; dataRange) against a ghost stream; sequential API behaviour (Reader, SeekTo/IsValid, wrap beyond capacity, close); protocol runs with one writer and up to two blocked readers under every interleaving (Broadcast wake-up, close wakes all with an error, no deadlock)",
+   note=NOTE_COMMON + "concrete ring sizes in the lemmas; step lemmas on an 8-byte ring; induction over histories on paper; sync primitives are engine primitives; *os.File is a byte-store stub in the file flavour"),
  "C10": dict(
    text="18 value-tree skeletons (depth <= 3, payloads <= 3 symbolic bytes, small symbolic integers, nil vs empty) encoded with the real encoder, embedded in a stream with keep-alive newlines and a following value, decoded with the real decoder over real bufio: equality, exact byte position and intact remainder asserted for all payload values; integers across the imap boundaries; inline commands; corruption families (CR, LF, non-numeric and negative lengths, unknown type in array, every truncation point) must yield an error; ParseArgs/ChangeArgsToResp round trip",
    note=NOTE_COMMON + "shapes are enumerated concretely, contents are symbolic; text lines exclude LF; integers restricted to the listed ranges and edge values"),
